@@ -227,8 +227,9 @@ def gen_function_vcs(lib, key):
     c, renamed = rename_contract(lib, key, fdef)
     if renamed:
         info['renamed_locals'] = renamed
+    outer = find_function(filekey, qual.split('.')[0])[0] if '.' in qual else None
     fv = executor.FuncVerifier(lib, filekey, fdef, c, module_function_names(filekey), modules=MODULES,
-                               class_name=qual.split('.')[0] if '.' in qual else None)
+                               class_name=qual.split('.')[0] if isinstance(outer, ast.ClassDef) else None)
     try:
         vcs = fv.run()
         info['status'] = 'ok'
